@@ -936,6 +936,7 @@ def generic_check(mod, tier, seed):
         # optional module hook: re-run suspicious cases (e.g. watchdog hits under machine load) on their own
         mod.recheck(binpath, cases)
     failing, mismatching = classify_cases(mod, cases, known, res)
+    st_fail, st_mis, st_info = state_pass(mod, binpath, cases, random.Random(seed * 31337 + 5), tier, known)
 
     if (broken_names or mismatching) and not failing and tier == "quick":
         # something broke but no failing input yet: widen the search (DESIGN §3 step 4)
@@ -963,6 +964,28 @@ def generic_check(mod, tier, seed):
         res.violations.append(("%s on `%s`" % (small.verdict, small.line()[:160].replace("\t", " ")), "", p, False))
         if n >= 4:
             break
+
+    for c, pre in st_fail[:3]:
+        n += 1
+        p = write_replay(mod.ID, n, {"property": mod.ID, "seed": seed, "case": c.to_json(),
+                                     "calls_made_before_in_the_same_process": [x.line() for x in pre],
+                                     "note": "the case passes when it is the first call of a process; the listed calls, made before "
+                                             "it in the same process, make it fail",
+                                     "replay": "./check %s --replay <this file>" % mod.ID})
+        res.violations.append(("%s on `%s` after %d earlier call(s) in the same process (first: `%s`)" % (
+            c.verdict, c.line()[:120].replace("\t", " "), len(pre),
+            pre[0].line()[:80].replace("\t", " ") if pre else ""), "", p, False))
+    res.add_obligation("T4:results do not depend on earlier calls in the same process (%d cases x %d orders, single process each)" % (
+        st_info["cases_per_order"], st_info["orders"]), not st_fail and not st_mis, "tie",
+        "" if not (st_fail or st_mis) else "%d failing, %d leaving the model" % (len(st_fail), len(st_mis)))
+    if st_mis and not st_fail and not failing:
+        c, pre = st_mis[0]
+        p = write_replay(mod.ID, "state", {"property": mod.ID, "obligation": "T4 correspondence, same process",
+                                           "case": c.to_json(), "calls_made_before_in_the_same_process": [x.line() for x in pre],
+                                           "note": "model = implementation when the case is the first call of a process, not after the listed calls; "
+                                                   "the property predicate held on every explored input"})
+        res.violations.append(("correspondence broken on `%s` after %d earlier call(s) in the same process: impl=%s model=%s" % (
+            c.line()[:100].replace("\t", " "), len(pre), str(c.impl)[:60], str(c.model)[:60]), "", p, True))
 
     corr_ok = not mismatching
     res.add_obligation("T4:correspondence model=implementation on %d cases" % len(cases), corr_ok, "tie",
@@ -997,6 +1020,101 @@ def generic_check(mod, tier, seed):
                    "unmodelled_cases": sum(1 for c in cases if c.model == getattr(mod, "UNMODELLED", None)),
                    "search_tier": search_tier,
                    "theorems": [{"name": t["name"], "axioms": t["axioms"]} for t in ths]})
+
+
+def _seq_run(binpath, seq, timeout_s):
+    """run the cases of `seq` one after the other in ONE harness process (state left by a call is seen by the next)"""
+    for i, c in enumerate(seq):
+        c.id = i
+    r = _worker_run(binpath, [(c.id, c.line()) for c in seq], timeout_s)
+    for c in seq:
+        c.impl = r.get(c.id)
+    run_oracle(seq, nproc=1)
+    return seq
+
+
+def _clone(c):
+    return Case(c.op, c.args, c.nontrivial, c.tag)
+
+
+def state_pass(mod, binpath, cases, rng, tier, known):
+    """Same process, several orders.  The correspondence run spreads the cases over many harness processes, so a result
+    that depends on what was called BEFORE in the same process (a package-level cache, a model object that keeps a
+    value from its previous initialisation, a buffer shared with an earlier result) is easily missed.  A stratified
+    sample of the cases that passed is therefore run again in single processes, in several random orders (and each
+    order reversed); the oracle judges every result again.  A case that now fails or leaves the model, and is fine
+    when run alone, is reported with the (shrunk) sequence of earlier calls that it needs.
+    Returns (failing, mismatching, info): lists of (case, sequence-of-cases-before-it)."""
+    skip = set(getattr(mod, "STATE_PASS_SKIP", []))
+    pool = [c for c in cases if not c.op.startswith(("cli", "det")) and c.op not in skip
+            and (c.verdict or "na").startswith(("pass", "na")) and model_matches(mod, c)
+            and not (c.impl or "").startswith(("hang", "exit"))]
+    by = {}
+    for c in pool:
+        by.setdefault((c.op, c.tag), []).append(c)
+    H = getattr(mod, "STATE_PASS_N", 480 if tier == "quick" else 3000)
+    per = max(4, H // max(1, len(by)))
+    sample = []
+    for k in sorted(by):
+        sample += rng.sample(by[k], min(per, len(by[k])))
+    norders = 3 if tier == "quick" else 8
+    orders = []
+    for _ in range(norders):
+        o = list(sample)
+        rng.shuffle(o)
+        orders.append([_clone(c) for c in o])
+        orders.append([_clone(c) for c in reversed(o)])
+    tmo = getattr(mod, "TIMEOUT", 5.0)
+    with ThreadPoolExecutor(min(NCPU, len(orders))) as ex:
+        list(ex.map(lambda sq: _seq_run(binpath, sq, tmo), orders))
+    failing, mismatching = [], []
+    seen = set()
+    for sq in orders:
+        for i, c in enumerate(sq):
+            bad_v = (c.verdict or "na").startswith("fail") and classify_known(mod, c, known) is None
+            bad_m = not bad_v and not (c.verdict or "na").startswith("fail") and not model_matches(mod, c)
+            if not (bad_v or bad_m) or c.key() in seen:
+                continue
+            seen.add(c.key())
+            alone = _clone(c)
+            evaluate(binpath, [alone], timeout_s=tmo, isolate=True)
+            alone_bad = (alone.verdict or "na").startswith("fail") or not model_matches(mod, alone)
+            if alone_bad:
+                # not state: the case itself is bad now (flaky or nondeterministic) - judged like any case
+                (failing if (alone.verdict or "").startswith("fail") else mismatching).append((alone, []))
+                continue
+            pre = _shrink_prefix(mod, binpath, sq[:i], c, tmo, bad_v)
+            last = _seq_run(binpath, [_clone(x) for x in pre] + [_clone(c)], tmo)[-1]
+            (failing if bad_v else mismatching).append((last, pre))
+            if len(failing) + len(mismatching) >= 6:
+                break
+    info = {"cases_per_order": len(sample), "orders": len(orders), "strata": len(by)}
+    return failing, mismatching, info
+
+
+def _shrink_prefix(mod, binpath, prefix, case, tmo, want_fail, budget_s=40.0):
+    """delta debugging over the calls made before `case` in the same process"""
+    def bad(pre):
+        last = _seq_run(binpath, [_clone(x) for x in pre] + [_clone(case)], tmo)[-1]
+        if want_fail:
+            return (last.verdict or "na").startswith("fail")
+        return not (last.verdict or "na").startswith("fail") and not model_matches(mod, last)
+    cur = list(prefix)
+    t0 = time.time()
+    if not bad(cur):
+        return cur          # order-dependent beyond the prefix (should not happen); keep everything
+    changed = True
+    while changed and time.time() - t0 < budget_s:
+        changed = False
+        for st, en in dd_chunks(len(cur)):
+            if time.time() - t0 > budget_s:
+                break
+            cand = cur[:st] + cur[en:]
+            if len(cand) < len(cur) and bad(cand):
+                cur = cand
+                changed = True
+                break
+    return cur
 
 
 def model_matches(mod, c):
@@ -1072,7 +1190,15 @@ def replay(mod, path):
         lake_build([ORACLE])
         ok, out, _, binpath = build_harness()
     c = Case(d["case"]["op"], d["case"]["args"])
-    evaluate(binpath, [c], timeout_s=getattr(mod, "TIMEOUT", 5.0))
+    pre = d.get("calls_made_before_in_the_same_process")
+    if pre:
+        sq = [Case(l.split("\t")[0], l.split("\t")[1:]) for l in pre] + [c]
+        _seq_run(binpath, sq, getattr(mod, "TIMEOUT", 5.0))
+        print("after %d earlier call(s) in the same process:" % len(pre))
+        for l in pre[:10]:
+            print("  before :", l[:200])
+    else:
+        evaluate(binpath, [c], timeout_s=getattr(mod, "TIMEOUT", 5.0))
     print("op      :", c.line())
     print("impl    :", c.impl)
     print("model   :", c.model)
